@@ -34,7 +34,7 @@ class C08(Pipeline):
     tier_env = {"quick": {"VERIF_CH_RERUNS": "3"},
                 "thorough": {"VERIF_CH_RERUNS": "10", "VERIF_CH_DELAY_EVERY": "20"}}
     assumptions = [
-        "full application (app.New) driven through InitChain / FinalizeBlock / Commit with really signed transactions; one prepared world per driver process (4 bonded validators with external accounts, keep-alives and equal relayer fees on two active EVM chains, treasury fees, a bridged ERC-20, a light node sale contract, snapshots built by the real end blocker, height 240); every run is a fork (copy of the database + app.New) of that world",
+        "full application (app.New) driven through InitChain / FinalizeBlock / Commit with really signed transactions; one prepared world per driver process (4 bonded validators with external accounts, keep-alives and equal relayer fees on two active EVM chains, treasury fees, a bridged ERC-20, a light node sale contract, snapshots built by the real end blocker, height 280); every run is a fork (copy of the database + app.New) of that world",
         "what only governance can do (add / activate chains, compass contract, fee manager, deployer, treasury fees, token mapping, sale contract) is done through the modules' governance proposal handlers on the uncached context during world preparation",
         "twins are sequential in one process (util/eventbus keeps subscribers in package globals); the perturbed twin and the R-1 re-runs replay the RAW transaction bytes of the reference run, so 'same sequence of blocks and transactions' is literal",
         "digest per block = app hash + every ExecTxResult (code, codespace, data, gas wanted/used, events with attribute order and index flag) + FinalizeBlock events, validator updates, consensus parameter updates; the free-text log of a failed transaction is NOT part of the digest (it is not part of consensus and contains stack addresses)",
